@@ -81,6 +81,30 @@ def run(ctx):
             rcases.append((bytes(ba), o)); meta.append((label, f"flip@{17 + i // 8}.{i % 8}"))
             if o[0] == "ok":
                 prop_bad.append({"batch": label, "what": f"bit flip at byte {17 + i // 8} bit {i % 8} accepted", "bytes": bytes(ba).hex()[:600]})
+        # "any corruption of the checksum or of a checksummed byte" (c18_byte_change_rejected, c18_crc_field_corrupted,
+        # c18_burst_rejected): the stored CRC replaced as a whole (neighbours, complement, byte-swapped, zero, sign bit, random),
+        # one byte replaced by another value, up to four consecutive bytes replaced
+        crc0 = data[17:21]
+        crcv = int.from_bytes(crc0, "big")
+        alts = {((crcv + 1) % 2**32), ((crcv - 1) % 2**32), crcv ^ 0xFFFFFFFF, crcv ^ 0x80000000, crcv ^ 1, 0, 0xFFFFFFFF,
+                int.from_bytes(crc0[::-1], "big"), r.getrandbits(32), crcv ^ (1 << r.randrange(32)), crcv & 0x7FFFFFFF, crcv & 0xFFFF}
+        variants = [(f"crc-replaced@{a:08x}", data[:17] + a.to_bytes(4, "big") + data[21:]) for a in sorted(alts) if a != crcv]
+        if quick:
+            variants = r.sample(variants, min(4, len(variants)))
+        for _ in range(3 if quick else 12):
+            k = r.randrange(21, len(data))
+            x = r.choice([b for b in (0, 0xFF, data[k] ^ 0x80, (data[k] + 1) % 256, r.randrange(256)) if b != data[k]])
+            variants.append((f"byte-replaced@{k}:={x:02x}", data[:k] + bytes([x]) + data[k + 1:]))
+            if len(data) >= 26:
+                k = r.randrange(21, len(data) - 3)
+                w = bytes(r.getrandbits(8) for _ in range(4))
+                if w != data[k:k + 4]:
+                    variants.append((f"burst@{k}", data[:k] + w + data[k + 4:]))
+        for how, damaged in (variants[:60] if len(data) < 3000 else variants[:4] + variants[-2:]):
+            o = rc.impl_read(damaged)
+            rcases.append((damaged, o)); meta.append((label, how))
+            if o[0] == "ok":
+                prop_bad.append({"batch": label, "what": f"corruption {how} accepted", "bytes": damaged.hex()[:600]})
         ba = bytearray(data); ba[16] = r.choice([0, 1, 3, 255])
         o = rc.impl_read(bytes(ba)); rcases.append((bytes(ba), o)); meta.append((label, "magic"))
         if o[0] == "ok":
